@@ -11,6 +11,7 @@ from vf.hyp import drive, st
 from vf.runner import Collector
 
 ID = "C07"
+EARLY_ATTRIBUTION = True  # region predicates are cheap scans of the stored case
 LEVEL = "exploration"
 RULE = ("Generated rewrite rules whose replacement equals the pattern by construction (re-emission of a unary op, operand swap of a "
         "commutative op, triple transpose, two-node chain re-emission, two-output pattern re-emission, x+0 with a NEW initializer, "
